@@ -58,6 +58,10 @@ CHECKS['C10'] = dict(tech='Hypothesis register netlists with gated clock drivers
              text='Netlists partitioned into nested wrappers, some carrying ClockDriver(base, enable) with enables from an input, from logic or from a register inside the gated domain, are simulated over enable patterns (gaps, pulses, always-on) and every wire is compared each cycle with a reference that holds gated registers when the pre-edge enable is 0 and resolves the nearest ancestor driver on the description; with all enables tied to 1 the run must equal the ungated design. Exploration (sampled).',
              note='Trusted: pbt/netgen.py (builder, reference evaluator, domain resolution).',
              ref='DESIGN.md 2/C10')
+CHECKS['C11'] = dict(tech='Hypothesis construction histories interpreted against a dictionary model (stateful, replayable op lists) + single-fault variants of every catalogue block; independent undriven-port traversal as oracle for checkIntegrity',
+             text='Histories of wire creation, block instantiation, child creation, rename / reparent / reparentAndRename and port addition with small name pools: every conflicting call must raise, every well-formed call must not, and after every call the first driver, child and wire registered under a name must still be in place; checkIntegrity must raise iff some port is attached to an undriven ordinary wire. Every catalogue block with all inputs driven is accepted; with one driver removed or duplicated it is rejected at the right call. Exploration (sampled).',
+             note='Trusted: the dictionary model and traversal in pbt/props/c11.py. BidirWire excluded; the loser of a conflict is not judged.',
+             ref='DESIGN.md 2/C11')
 NOT_APPLICABLE = {}
 
 def main():
